@@ -565,7 +565,9 @@ func runC07Generated(t *testing.T, registry map[int]lexer.Definition, dataFile s
 				r.Count("generated_reports_error")
 			}
 			if g.err != nil || len(g.toks) >= 3 {
-				r.NonTrivial(inHex+"|"+d.RS.String(), func() any { return map[string]any{"kind": "generated", "rules_text": d.RS.String(), "input_hex": inHex} })
+				r.NonTrivial(inHex+"|"+d.RS.String(), func() any {
+					return map[string]any{"kind": "generated", "rules_text": d.RS.String(), "input_hex": inHex}
+				})
 			}
 			if msg != "" {
 				failed = true
@@ -613,7 +615,9 @@ func runC04Generated(t *testing.T, registry map[int]lexer.Definition, dataFile s
 			r.Count("kind_generated")
 			multiByte := strings.ToValidUTF8(in, "") != in || len([]rune(in)) != len(in)
 			if strings.Contains(in, "\n") && multiByte && len(g.toks) >= 3 {
-				r.NonTrivial(inHex+"|"+d.RS.String(), func() any { return map[string]any{"kind": "generated", "rules_text": d.RS.String(), "input_hex": inHex} })
+				r.NonTrivial(inHex+"|"+d.RS.String(), func() any {
+					return map[string]any{"kind": "generated", "rules_text": d.RS.String(), "input_hex": inHex}
+				})
 			}
 			errs := lexgen.ValidateTokens(in, "f", g.toks, !d.RS.HasLowerCase())
 			if bd, ok := gen.(lexer.BytesDefinition); ok && len(errs) == 0 {
